@@ -110,7 +110,8 @@ class Contract:
 
 
 class ClassDecl:
-    def __init__(self, name, file=None, bases=None, fields=None, virtual=None, ghost=None, value=False, exception=False, qual=None):
+    def __init__(self, name, file=None, bases=None, fields=None, virtual=None, ghost=None, value=False, exception=False, qual=None, value_sort=None):
+        self.value_sort = value_sort      # immutable value class: structural equality, SMT datatype over `fields`
         self.name = name
         self.qual = qual or name
         self.file = file
@@ -164,8 +165,11 @@ class Registry:
         return self
 
     def add_module(self, mod):
+        from . import types as _T
         self.modules.append(mod.__name__)
         for cd in getattr(mod, "CLASSES", []):
+            if cd.value_sort:
+                _T.VALUE_CLASSES[cd.name] = (cd.value_sort, list(cd.fields.items()))
             if cd.name in self.classes:
                 old = self.classes[cd.name]
                 old.fields.update(cd.fields)
